@@ -41,8 +41,11 @@ RECURSIVE OutText(_)
 OutText(s) == IF s = <<>> THEN "" ELSE ToString(s[1]) \o "\n" \o OutText(Tail(s))
 \* scenario 5 ends with a division by zero in the main program
 MainFails(sc) == \E j \in 1..Len(Scenario(sc)["main"]) : Scenario(sc)["main"][j].op = "fail"
+\* when the main program fails while another task prints, how much was printed before the failure depends on the schedule
+WorkerPrints(sc) == \E p \in {"w1", "w2"} : \E j \in 1..Len(Scenario(sc)[p]) : Scenario(sc)[p][j].op \in {"print", "printreg"}
 Case(sc) == [id |-> "scn" \o ToString(sc), files |-> ("main.abra" :> Text(sc)),
-             expect |-> IF MainFails(sc) THEN [status |-> "error", out |-> OutText(ExpectedOf(sc)), errkind |-> "divzero"]
+             expect |-> IF MainFails(sc) /\ WorkerPrints(sc) THEN [status |-> "error", errkind |-> "divzero"]
+                        ELSE IF MainFails(sc) THEN [status |-> "error", out |-> OutText(ExpectedOf(sc)), errkind |-> "divzero"]
                         ELSE [status |-> "done", out |-> OutText(ExpectedOf(sc))]]
 ASSUME \A sc \in Scns : PrintT(<<"CASE", ToJson(Case(sc))>>)
 =============================================================================
